@@ -27,7 +27,8 @@ func main() {
 			"BIP66 grammar and Core's lax grammar; public keys: every prefix byte x length x (on/off curve, x>=p, parity); " +
 			"BIP340: signer (RFC6979, aux-rand, fast), reference-made signatures with boundary nonces and their mutations, " +
 			"parser range boundaries; MuSig2: 1-8 signers with duplicates, sorted/unsorted, tweak chains 0-4, taproot/BIP86, " +
-			"infinity nonces, hostile nonce encodings, free functions and Context/Session. A case is distinct by " +
+			"infinity nonces, hostile nonce encodings, free functions and Context/Session; option values, key lists and key objects are " +
+			"reused across repeated calls (idempotence) and every caller-owned input is compared with a byte copy taken before the call. A case is distinct by " +
 			"(family, structural class flags, verdict, leading bytes of the signature/key involved).")
 		runCalibration(c)
 
@@ -82,7 +83,7 @@ func main() {
 		family("schnorr.boundary", c.N(2000, 80000), famSchnorrBoundary, req{"schnorr.boundary": 500, "schnorr.parse.sig.reject": 200,
 			"schnorr.parse.key.reject": 50})
 
-		family("musig.free", c.N(800, 32000), famMusigFree, req{"musig.session": 300, "musig.keyagg": 300, "musig.noncegen": 500,
+		family("musig.free", c.N(800, 32000), famMusigFree, req{"musig.session": 300, "aliasing.guarded_calls": 3000, "musig.keyagg.reused_options": 300, "musig.keyagg.other_set": 50, "musig.keyagg": 300, "musig.noncegen": 500,
 			"musig.partial.sign": 500, "musig.partial.verify.reject": 100, "musig.session.duplicate_keys": 30, "musig.session.sorted": 50,
 			"musig.session.tweakmode1": 30, "musig.session.tweakmode2": 30, "musig.session.tweakmode3": 30,
 			"musig.session.infinite_nonce_halves1": 10, "musig.session.infinite_nonce_halves2": 5, "musig.session.n1": 10, "musig.session.n8": 5})
